@@ -20,8 +20,14 @@ HEADERS = [
     ("posonly_defaults_annotated", "a: int = 1, /, b: int = 2, *, c: int = 3", [("a", "int"), ("b", "int"), ("c", "int")], "int"),
     ("annotated_nodefault", "a: int, b: str", [("a", "int"), ("b", "str")], "bool"),
     ("arrow_default_annotated", "a: int, sep: str = '->'", [("a", "int"), ("sep", "str")], "int"),
+    # return annotations with brackets of their own, on headers whose parameter list is not re-rendered when annotations are dropped
+    ("ret_paren_plain", "a, b", [("a", "int"), ("b", "str")], "Tuple[()]"),
+    ("ret_paren_kwonly", "a, *, b: int = 1", [("a", "int"), ("b", "int")], "Optional[Tuple[(int, str)]]"),
+    ("ret_call_noparams", "", [], "Annotated[int, Gt(0)]"),
+    ("ret_plain_unannotated", "a, b=(1, 2)", [("a", "int"), ("b", "Tuple[int, int]")], "Dict[str, int]"),
 ]
 HEADER_KEYS = [h[0] for h in HEADERS]
+RET_HEADERS = [h[0] for h in HEADERS if h[0].startswith("ret_")]  # the return annotation is written although the parameters carry none
 
 
 def docstring_for(style, params, returns, with_types=True):
@@ -30,6 +36,11 @@ def docstring_for(style, params, returns, with_types=True):
         return None
     if style == "oneline":
         return "Summary of it."
+    if style == "blank":
+        return "   "
+    if style == "rest_typesonly":
+        # nothing but type lines: the docstring becomes empty once the types move into the signature
+        return "\n".join([":type %s: ```%s```" % (n, t) for n, t in params] + ([":rtype: ```%s```" % returns] if returns else [])) or "   "
     lines = ["Summary of it.", ""]
     if style == "rest":
         for n, t in params:
@@ -64,8 +75,9 @@ def docstring_for(style, params, returns, with_types=True):
     return "\n".join(lines)
 
 
-DOCSTYLES = ["none", "oneline", "rest", "rest_notypes", "google", "numpydoc", "rest_partial", "google_partial", "rest_reversed"]
+DOCSTYLES = ["none", "oneline", "rest", "rest_notypes", "google", "numpydoc", "rest_partial", "google_partial", "rest_reversed", "rest_typesonly", "blank"]
 BODIES = [
+    ("docstring_only", []),  # an interface stub: the docstring is the whole body (not combined with docstyle "none")
     ("pass", ["pass"]),
     ("two_stmts", ["x = 1  # trailing comment", "return x"]),
     ("comment_block", ["# leading comment", "# second line", "y = [1,", "     2]", "return y"]),
@@ -93,7 +105,7 @@ def render_def(kind, header_key, docstyle, body_key, name="f", indent=""):
         out = []
         if decorator:
             out.append(ind + decorator)
-        head = "%s%sdef %s(%s)%s:" % (ind, "async " if is_async else "", name, ps.replace("\n", "\n" + ind), " -> %s" % rets if rets and ":" in head_params else "")
+        head = "%s%sdef %s(%s)%s:" % (ind, "async " if is_async else "", name, ps.replace("\n", "\n" + ind), " -> %s" % rets if rets and (":" in head_params or header_key in RET_HEADERS) else "")
         out.append(head)
         doc = docstring_for(style, pars, rets, with_types)
         inner = ind + "    "
@@ -160,6 +172,8 @@ POSTLUDE = "\n\nif __name__ == '__main__':\n    print(CONST)  # done\n"
 def single_programs(kinds=KINDS, headers=HEADER_KEYS, docstyles=DOCSTYLES, bodies=None):
     bodies = bodies or [b[0] for b in BODIES]
     for kind, hk, ds, bk in itertools.product(kinds, headers, docstyles, bodies):
+        if bk == "docstring_only" and ds == "none":
+            continue  # a definition without any body is not Python
         yield dict(defs=[[kind, hk, ds, bk]]), PRELUDE + render_def(kind, hk, ds, bk, "f") + POSTLUDE
 
 
